@@ -713,6 +713,7 @@ pub fn run(tier: Tier) -> i32 {
         }
     }
     let _ = KeyId::from_str;
+    crate::envprobe::judge(&mut acc, "C05:", &mut c.extra);
     c.acc = acc;
     c.rule = "(a) metadata values from the field alphabets (every string field x critical and wide strings, splits of one string across adjacent fields, structural near-collisions, thresholds x pubkey lists x key tables, expiry seconds, every rule form in every position, repeated steps / inspections / key ids / rules / arguments, digests of 8 lengths and with single-byte differences in one- and two-algorithm maps, key-table entries over one key material with 5 hash-algorithm lists / 2 schemes, strings of 15..1025 (70001) characters) signed with one Ed25519 key: unequal values must give different signatures; canonical encodings of the C10 value grammar pairwise distinct; (b) every single-field edit (incl. every digest byte and every rule token) of a signed layout and a signed link, for 5 signer sets, must fail verification and pass again when undone. distinct_nontrivial = distinct signed byte strings + distinct canonical encodings + edits that change the parsed value".into();
     c.bound_completed = format!("critical strings <= {}, wide strings <= {}, split words <= {}", if tier.thorough() { 4 } else { 3 }, if tier.thorough() { 2 } else { 1 }, if tier.thorough() { 4 } else { 3 });
